@@ -121,6 +121,7 @@ type FuncSpec struct {
 	Fresh     bool // result is a freshly allocated reference
 	Holds     []HoldDecl
 	CallersNeed []string // properties under which every module function calling this one must itself be under contract
+	CallersChecked []string // properties under which every module function calling this one is checked (so that its tagged requires are obligations at every call)
 	Waive     []string // obligations of this function whose name contains one of these labels are not generated (documented gaps)
 	NoSweep   []string // sweep kinds not generated for this function (reason goes to DESIGN.md / evidence)
 	Records   [][2]string // (ghost, parameter or retN): the engine stores that value in the ghost at every call
@@ -651,7 +652,7 @@ var clauseKeywords = map[string]bool{
 	"pred": true, "fun": true, "lemma": true, "ghost": true, "func": true, "extern": true, "type": true,
 	"callspec": true, "requires": true, "ensures": true, "modifies": true, "pure": true, "function": true, "inline": true,
 	"trusted": true, "loop": true, "before": true, "sweep": true, "guarded": true, "final": true, "atomic": true,
-	"confined": true, "transient": true, "lockinv": true, "private": true, "owns": true, "init": true, "holds": true, "helper": true, "counted": true, "records": true, "sweepscope": true, "nosweep": true, "waive": true, "callers-need-contract": true, "hb-by-channel": true, "invariant": true, "ctor": true, "params": true, "fresh": true, "end": true,
+	"confined": true, "transient": true, "lockinv": true, "private": true, "owns": true, "init": true, "holds": true, "helper": true, "counted": true, "records": true, "sweepscope": true, "nosweep": true, "waive": true, "callers-need-contract": true, "callers-checked": true, "hb-by-channel": true, "invariant": true, "ctor": true, "params": true, "fresh": true, "end": true,
 }
 
 type rawClause struct {
@@ -956,6 +957,10 @@ func parseSpecFile(path string, pkgPath string) (*SpecFile, error) {
 		case "callers-need-contract":
 			if curF != nil {
 				curF.CallersNeed = append(curF.CallersNeed, splitNames(rest)...)
+			}
+		case "callers-checked":
+			if curF != nil {
+				curF.CallersChecked = append(curF.CallersChecked, splitNames(rest)...)
 			}
 		case "waive":
 			if curF != nil {
